@@ -64,6 +64,7 @@ fn gen_full_system(seed: u64) -> Plan {
     plan.world.faults_until_ms = quiet / 1000;
     let t = sentinels(&mut plan, 8, quiet + 20_000);
     final_burst(&mut rng, &mut plan, t + 50_000);
+    wall_steps(&mut rng, &mut plan);
     let last = plan.last_step_us();
     plan.world.horizon_ms = last / 1000 + 1200;
     plan
@@ -99,6 +100,7 @@ fn gen(seed: u64, idx: u64, _tier: Tier) -> Plan {
     plan.world.faults_until_ms = end / 1000 + 5;
     let t = sentinels(&mut plan, 8, end + 20_000);
     final_burst(&mut rng, &mut plan, t + 50_000);
+    wall_steps(&mut rng, &mut plan);
     let last = plan.last_step_us();
     plan.world.horizon_ms = last / 1000 + 1200;
     plan
